@@ -235,6 +235,35 @@ pub fn not_dispatched<T: CommonOperator>(map: &phf::Map<&'static str, T>, key: &
     std::mem::forget(v);
 }
 
+//@ harness: c02_apply_scalars tier=quick timeout=900 kind=main mem=8
+//@ encodes: crate::apply, Parsed::from_value, Raw::evaluate, <Value as From<Evaluated>>::from
+//@ bound: the public entry point on scalar literals null / Bool / Number(i64 | u64 | finite f64, every payload): returns a value identical in type, value AND spelling (2.0 stays a float), whatever the data
+#[cfg_attr(kani, kani::proof)]
+#[cfg_attr(kani, kani::unwind(6))]
+#[cfg_attr(kani, kani::stub(std::fmt::format, stub_format))]
+#[cfg_attr(verif_replay, test)]
+pub fn c02_apply_scalars() {
+    let data = Value::Bool(in_bool::<90>());
+    let v0 = Value::Null;
+    assert!(matches!(crate::apply(&v0, &data), Ok(Value::Null)), "C02: null literal changed");
+    let b = in_bool::<1>();
+    let v1 = Value::Bool(b);
+    assert!(match crate::apply(&v1, &data) { Ok(Value::Bool(x)) => x == b, _ => false }, "C02: boolean literal changed");
+    let i = in_i64::<2>();
+    let v2 = Value::Number(Number::from(i));
+    assert!(match crate::apply(&v2, &data) { Ok(Value::Number(n)) => n.is_i64() && n.as_i64() == Some(i), _ => false }, "C02: integer literal changed");
+    let u = in_u64::<3>();
+    let v3 = Value::Number(Number::from(u));
+    assert!(match crate::apply(&v3, &data) { Ok(Value::Number(n)) => n.as_u64() == Some(u), _ => false }, "C02: integer literal changed");
+    let f = in_f64::<4>();
+    assume(f.is_finite());
+    let v4 = Value::Number(Number::from_f64(f).unwrap());
+    let r4 = crate::apply(&v4, &data);
+    vshow!("apply({:?}) = {:?}", v4, r4);
+    assert!(match &r4 { Ok(Value::Number(n)) => n.is_f64() && n.as_f64().map(f64::to_bits) == Some(f.to_bits()), _ => false }, "C02: float literal re-spelled or changed");
+    std::mem::forget(r4);
+}
+
 //@ harness: c02_wit tier=quick timeout=600 kind=witness mem=8
 //@ encodes: OPERATOR_MAP
 //@ bound: vacuity twin of c02_membership_eager
